@@ -97,7 +97,7 @@ WellTyped(s, c) ==
     [] c.k = "aug" -> BTo(OpSh(s, c.val), s.H[c.t].sh)
     [] OTHER -> TRUE
 
-SmallVals(s) == \A b \in 1..Len(s.mem) : \A c \in 1..Len(s.mem[b]) : AbsI(s.mem[b][c].v[1]) < 5000 /\ s.mem[b][c].v[2] < 100
+SmallVals(s) == ~s.oor /\ \A b \in 1..Len(s.mem) : \A c \in 1..Len(s.mem[b]) : AbsI(s.mem[b][c].v[1]) < 5000 /\ s.mem[b][c].v[2] < 100
 
 Proj(s) ==
   [t |-> [h \in 1..Len(s.H) |->
